@@ -455,7 +455,7 @@ def _inline_getters(ds, t, self_name, depth=0):
     if len(t) == 4 and t[0] == "call" and t[1][0] == "a" and t[1][1] == ("n", self_name) and not t[2] and not t[3]:
         g = ds.methods.get(t[1][2])
         if g is not None and g.self_name is not None:
-            body = [st for st in g.node.body if not (isinstance(st, ast.Expr) and isinstance(st.value, ast.Constant))]
+            body = [st for st in R.flat_body(g.node) if not isinstance(st, ast.Expr)]        # docstring, bare calls (logging)
             if len(body) == 1 and isinstance(body[0], ast.Return) and body[0].value is not None:
                 rt = Terms(g.node).term(body[0].value)
                 rt = _replace(rt, ("n", g.self_name), ("n", self_name))
